@@ -7,6 +7,9 @@ OUT=/verif/seeded/RESULTS.txt
 SAVE=$(mktemp -d /tmp/ev_save.XXXXXX); cp -r /verif/evidence/. $SAVE/
 one() {
   n=$1; p=${n:0:3}
+  # (a change whose effect belongs to the quantifier of another property - e.g. a transport fault that shows while loading
+  #  tables - names that property in meta.json "check_under"; the reason is in its "detected_by")
+  o=$(/venv/bin/python -c "import json;print(json.load(open('/verif/seeded/$n/meta.json')).get('check_under',''))" 2>/dev/null); [ -n "$o" ] && p=$o
   WT=$(mktemp -d /tmp/seedwt.XXXXXX)
   git -C /repo worktree add -q --detach $WT HEAD 2>/dev/null || { echo "$n exit=? worktree failed"; return; }
   if git -C $WT apply /verif/seeded/$n/patch.diff 2>/dev/null; then
